@@ -8,8 +8,8 @@
 
   The model MIRRORS the code (defects included): same filters, same zero guards, the streak
   computation written with the NumPy primitives the code uses (clip / astype(bool) / cumsum /
-  maximum.accumulate / where), `pct_change` with its NaN first row, `max_drawdown` with pandas'
-  NaN-skipping `cumprod` / `expanding().max()` / `min`.
+  maximum.accumulate / where), `pct_change` with its NaN first row, `max_drawdown` with `fillna(0)`
+  and pandas' `cumprod` / `expanding().max()` / `min`.
 
   Left out (need `sqrt` / real powers): the final `sqrt` of Sharpe and Sortino, the power in `cagr`
   (hence Calmar), `serenity_index`, `autocorr_penalty` (only used with `smart=True`, never by
@@ -315,12 +315,27 @@ def minSkip : List (Option Rat) → Option Rat
       | none => some x
       | some m => some (minR x m)
 
-/-- `prices = (returns + 1).cumprod()` -/
-def ddPrices (returns : List (Option Rat)) : List (Option Rat) := cumprodSkip 1 returns
+/-- `returns.fillna(0)`: a NaN row counts as a 0 % day -/
+def fillna0 : List (Option Rat) → List (Option Rat)
+  | [] => []
+  | none :: xs => some 0 :: fillna0 xs
+  | some r :: xs => some r :: fillna0 xs
+
+/-- `prices = (returns.fillna(0) + 1).cumprod()` -/
+def ddPrices (returns : List (Option Rat)) : List (Option Rat) := cumprodSkip 1 (fillna0 returns)
 
 /-- `max_drawdown(returns)`: `(prices / prices.expanding(min_periods=0).max()).min() - 1` -/
 def maxDrawdown (returns : List (Option Rat)) : Option Rat :=
   (minSkip (divSkip (ddPrices returns) (expandingMaxSkip none (ddPrices returns)))).map (· - 1)
+
+/-- element-wise `x - 1` with NaN propagation -/
+def subOneSkip (l : List (Option Rat)) : List (Option Rat) := l.map (fun o => o.map (· - 1))
+
+/-- the drawdown inside `calmar_ratio`:
+    `cum = (1 + returns.fillna(0)).cumprod(); drawdown = cum / cum.expanding(min_periods=1).max() - 1;
+     max_dd = abs(drawdown.min())` -/
+def calmarDrawdown (returns : List (Option Rat)) : Option Rat :=
+  (minSkip (subOneSkip (divSkip (ddPrices returns) (expandingMaxSkip none (ddPrices returns))))).map absR
 
 /-- `max_dd = nan if len(daily_return) < 2 else max_drawdown(daily_return) * 100` -/
 def maxDrawdownPct (balances : List Rat) : Option Rat :=
@@ -351,9 +366,9 @@ def negSqSum : List Rat → Rat
   | x :: xs => (if x < 0 then x * x else 0) + negSqSum xs
 
 /-- the square of `downside` in `sortino_ratio`:
-    `(returns[returns < 0] ** 2).sum() / len(returns)` — `len` counts the NaN row too -/
+    `(returns[returns < 0] ** 2).sum() / returns.count()` — `count` is the number of non-NaN rows -/
 def downsideSq (returns : List (Option Rat)) : Rat :=
-  negSqSum (validReturns returns) / (returns.length : Rat)
+  negSqSum (validReturns returns) / ((validReturns returns).length : Rat)
 
 def posSum : List Rat → Rat
   | [] => 0
@@ -440,11 +455,11 @@ def reservedTotal : List SpotRoute → Rat
   | r :: rs => r.reservedQuote + reservedTotal rs
 
 /-- spot branch: `for key, pos in positions: total = pos.strategy.portfolio_value; break` with
-    `portfolio_value = (entry_orders_value(own route) + Σ all positions' value) * 1 + balance`;
-    `routes` is in the iteration order of `store.positions.storage` -/
+    `portfolio_value = (Σ over every route of its active entry orders' value + Σ all positions' value) * 1
+    + balance` (all routes share one wallet); `routes` is in the iteration order of the stores -/
 def spotSample (freeQuote : Rat) (routes : List SpotRoute) : Rat :=
   match routes with
   | [] => 0
-  | r :: _ => (r.reservedQuote + positionsValue routes) * 1 + freeQuote
+  | _ :: _ => (reservedTotal routes + positionsValue routes) * 1 + freeQuote
 
 end Jesse.Metrics
